@@ -111,6 +111,13 @@ func sortOf(t types.Type) *Sort {
 					}
 				}
 			}
+			// a list of interface values all of one implementation type (the only type the loaded code converts to
+			// that interface): the list of those values
+			if impl := ifaceImpl(u.Elem()); impl != nil {
+				if ps := SortOf(derefType(impl)); ps != nil && ps.Kind == KData {
+					return SliceSort(ps)
+				}
+			}
 			return nil
 		}
 		return SliceSort(es)
@@ -310,4 +317,35 @@ func TypeInv(v *Term, t types.Type, depth int) *Term {
 		return And(cs...)
 	}
 	return True
+}
+
+var ifaceImpls = map[string]map[string]types.Type{}
+
+// ifaceImpl: the unique concrete type converted to interface type t in the loaded code, or nil. T and *T count as one
+// implementation (the pointer form is returned when both occur).
+func ifaceImpl(t types.Type) types.Type {
+	t = types.Unalias(t)
+	if !types.IsInterface(t) {
+		return nil
+	}
+	m := ifaceImpls[types.TypeString(t, nil)]
+	var base, res types.Type
+	for _, v := range m {
+		b := derefType(v)
+		if base != nil && !types.Identical(base, b) {
+			return nil
+		}
+		base = b
+		if res == nil || v != b {
+			res = v
+		}
+	}
+	return res
+}
+
+func derefType(t types.Type) types.Type {
+	if pt, ok := types.Unalias(t).Underlying().(*types.Pointer); ok {
+		return pt.Elem()
+	}
+	return t
 }
